@@ -308,6 +308,23 @@ func typecheckGenerated(r FactsReq, genPkg string) (string, []string) {
 		return "skipped:cannot load source", nil
 	}
 	srcName := src[0].Name
+	// earlier output of moq in the directory is what a regeneration would overwrite
+	stale := map[string][]byte{}
+	if ents, err := os.ReadDir(abs); err == nil {
+		for _, e := range ents {
+			if e.IsDir() || !strings.HasSuffix(e.Name(), ".go") {
+				continue
+			}
+			b, err := os.ReadFile(filepath.Join(abs, e.Name()))
+			if err == nil && strings.HasPrefix(string(b), "// Code generated by moq; DO NOT EDIT.") {
+				pk := srcName
+				if strings.HasSuffix(e.Name(), "_test.go") && strings.Contains(string(b), "\npackage "+srcName+"_test") {
+					pk = srcName + "_test"
+				}
+				stale[filepath.Join(abs, e.Name())] = []byte("package " + pk + "\n")
+			}
+		}
+	}
 	cfg := &packages.Config{
 		Mode: packages.NeedName | packages.NeedTypes | packages.NeedSyntax | packages.NeedTypesInfo | packages.NeedFiles | packages.NeedDeps | packages.NeedImports,
 		Dir:  abs,
@@ -315,10 +332,12 @@ func typecheckGenerated(r FactsReq, genPkg string) (string, []string) {
 	var want string
 	switch {
 	case genPkg == srcName:
-		cfg.Overlay = map[string][]byte{filepath.Join(abs, "zz_generated_moq.go"): []byte(r.Text)}
+		cfg.Overlay = stale
+		cfg.Overlay[filepath.Join(abs, "zz_generated_moq.go")] = []byte(r.Text)
 		want = src[0].ID
 	case genPkg == srcName+"_test":
-		cfg.Overlay = map[string][]byte{filepath.Join(abs, "zz_generated_moq_test.go"): []byte(r.Text)}
+		cfg.Overlay = stale
+		cfg.Overlay[filepath.Join(abs, "zz_generated_moq_test.go")] = []byte(r.Text)
 		cfg.Tests = true
 		want = src[0].PkgPath + "_test [" + src[0].PkgPath + ".test]"
 	default:
